@@ -26,6 +26,7 @@ import Driver.CircuitBoxCmd
 import Driver.SpidersCmd
 import Driver.SpecialCmd
 import Driver.CatCmd
+import Driver.TyClassCmd
 
 def handlers : List (String → List String → Option String) :=
   [ DV.CoreCmd.handle
@@ -48,6 +49,7 @@ def handlers : List (String → List String → Option String) :=
   , DV.SpidersCmd.handle
   , DV.SpecialCmd.handle
   , DV.CatCmd.handle
+  , DV.TyClassCmd.handle
   ]
 
 def handle (line : String) : String :=
